@@ -78,6 +78,10 @@ def cases():
         add("dotdot_input_" + f, "{B}/out/ws", ["../../../in"], force, setup=[("d", "run/x/y"), ("d", "out")], cwd="run/x/y")
         add("dotdot_input_one_" + f, "{B}/out/ws", ["../in"], force, setup=[("d", "run"), ("d", "out")], cwd="run")
         add("dotdot_workspace_" + f, "../../outrel/ws", ["{B}/in"], force, setup=[("d", "run/x"), ("d", "outrel")], cwd="run/x")
+        # a relative workspace option that does not mention the default name, given from a working directory whose own path does
+        add("relative_ws_cwd_contains_default_" + f, "out", ["{B}/in"], force, cwd=DEFAULT + "_runs",
+            setup=[("d", DEFAULT + "_runs"), ("d", DEFAULT + "_runs/out"), ("f", DEFAULT + "_runs/out/keep.txt", "keep\n"), ("d", DEFAULT + "_runs/out/reports"),
+                   ("f", DEFAULT + "_runs/out/reports/summary.csv", "a,b\n")])
         add("trailing_slash_" + f, "{B}/ws/", ["{B}/in/"], force)
         add("dot_input_" + f, "{B}/ws", ["."], force, cwd="in")
         add("dot_input_ws_inside_" + f, "wsdir", ["."], force, cwd="in")
